@@ -240,6 +240,7 @@ func ReportPair(w *World, r *Report, fnNames ...string) {
 		fa := w.FA(fn)
 		shifts := map[string][]int{}
 		masks := map[string][]int{}
+		ragged := map[string]int64{}
 		pos := map[string]string{}
 		for _, f := range append([]*ssa.Function{fn}, fn.AnonFuncs...) {
 			fa2 := w.FA(f)
@@ -256,6 +257,16 @@ func ReportPair(w *World, r *Report, fnNames ...string) {
 					shifts[k] = append(shifts[k], c)
 					pos[k] = w.InstrPos(ins)
 				}
+				// an offset mask that is not of the form 2^j-1 at all (x&62): some offsets inside the element collapse
+				if x, kc, ok := asBinConst(v, token.AND); ok && kc > 0 && kc < 128 && isPositionType(x.Type()) {
+					if _, isLow := log2(uint64(kc) + 1); !isLow {
+						k := fa2.VN(stripConv(x))
+						ragged[k] = kc
+						if _, ok := pos[k]; !ok {
+							pos[k] = w.InstrPos(ins)
+						}
+					}
+				}
 				if x, j, ok := asLowMask(v); ok && j >= 3 && j <= 7 && isPositionType(x.Type()) {
 					k := fa2.VN(stripConv(x))
 					masks[k] = append(masks[k], j)
@@ -271,6 +282,10 @@ func ReportPair(w *World, r *Report, fnNames ...string) {
 		var facts []string
 		for k, cs := range shifts {
 			for _, c := range cs {
+				if kc, isR := ragged[k]; isR && kc < 1<<uint(c) {
+					npairs++
+					bad = fmt.Sprintf("the same position is split with >>%d and the offset mask &%d, which is not 2^%d-1 (nor any 2^j-1): two different offsets inside the element select the same bit near %s", c, kc, c, pos[k])
+				}
 				for _, j := range masks[k] {
 					npairs++
 					if j != c {
